@@ -193,6 +193,21 @@ def build_shared_features_map(mod: fx.GraphModule) -> Dict[fx.Node, PITFeaturesM
     for n in nodes_to_remove:
         sharing_graph.remove_node(n)
 
+    # the inputs of a concatenation over the features axis were cut from it above, but their
+    # features reach the output when the concatenation does: tie them to the output as well
+    # (repeated until nothing changes, for nested concatenations)
+    changed = True
+    while changed:
+        changed = False
+        for c in nx.weakly_connected_components(sharing_graph):
+            if any(n.meta.get('output_connected', False) for n in c):
+                for n in c:
+                    if n.meta['features_concatenate']:
+                        for i in n.all_input_nodes:
+                            if not i.meta.get('output_connected', False):
+                                i.meta['output_connected'] = True
+                                changed = True
+
     # each weakly connected component of the sharing graph must share the same features masker
     sm_dict = {}
     for c in nx.weakly_connected_components(sharing_graph):
